@@ -8,7 +8,8 @@ from .. import strategies as S
 
 PROPERTY = "C15"
 LEVEL = "exploration"
-RULE = ("Generated histories (op lists: step*n, add inside the box, unsorted removal, explicit tree update) of 1-60 "
+RULE = ("Generated histories (op lists: step*n, add inside the box, unsorted removal between steps and from inside the "
+        "additional_forces / post_timestep_modifications callbacks, explicit tree update) of 1-60 "
         "free-streaming particles (leapfrog; gravity none or tree with G=0 so that the motion is exactly predictable; "
         "collisions none / tree / direct with the merge resolver) with |v dt| up to 3.5 root boxes per step, box sizes "
         "1 / 10 / 3.7 / 12.539722611734991, 1-3 root boxes per axis, boundaries periodic / shear / open.  Oracles: a "
@@ -34,7 +35,7 @@ ASSUMPTIONS = [
     "image of a particle in shear-periodic boxes: (x - n Lx, y + 3/2 n OMEGA Lx t mod Ly, vy + 3/2 n OMEGA Lx) "
     "(docs/boundaryconditions.md, Rein & Liu 2012)",
 ]
-CLASSES = ["boundary_hist/collision_search_walks", "boundary_hist/collision/tree", "boundary_hist/collision/linetree",
+CLASSES = ["boundary_hist/removed_in_callback", "boundary_hist/collision_search_walks", "boundary_hist/collision/tree", "boundary_hist/collision/linetree",
            "boundary_hist/boundary/periodic", "boundary_hist/boundary/shear", "boundary_hist/boundary/open",
            "boundary_hist/tree/gravity", "boundary_hist/tree/collision", "boundary_hist/tree/none",
            "boundary_hist/crossed_root", "boundary_hist/crossed_box", "boundary_hist/multi_box_step",
@@ -107,7 +108,7 @@ def history(draw, border=False):
     nops = draw(st.integers(2, 10))
     h = 1000
     for _ in range(nops):
-        kind = draw(st.sampled_from(["step", "step", "step", "add", "remove", "walk"]))
+        kind = draw(st.sampled_from(["step", "step", "step", "add", "remove", "remove_cb", "walk"]))
         if kind == "step":
             ops.append(["step", draw(st.sampled_from([1, 1, 2, 3, 7])), draw(st.booleans())])
         elif kind == "add":
@@ -115,6 +116,10 @@ def history(draw, border=False):
             ops.append(["add", draw(particle(L, L0, dt, h, border, radius))])
         elif kind == "remove":
             ops.append(["remove", draw(st.integers(0, 1000))])
+        elif kind == "remove_cb":
+            # unsorted removal issued from inside a callback during the next step: still pending when the collision
+            # search runs ("forces" = additional_forces, mid-step; "post" = post_timestep_modifications)
+            ops.append(["remove_cb", draw(st.integers(0, 1000)), draw(st.sampled_from(["forces", "post"]))])
         else:
             ops.append(["walk"])
     ops.append(["step", draw(st.sampled_from([1, 5, 6])), True])
@@ -435,7 +440,34 @@ def run_history(case, ctx):
             problems.append(str(e))
         except Exception as e:
             problems.append("HARNESS:" + repr(e))
+        if pending and pending[0][1] == "forces":
+            remove_now()
+    pending = []            # at most one [k, where] waiting for the next step
+    removed_cb = set()      # hashes removed from inside a callback during the current step
+
+    def remove_now():
+        try:
+            import ctypes
+            from rebound import clibrebound
+            k = pending.pop(0)[0]
+            s_ = R.snapshot(sim)
+            idx = [i for i in range(len(s_)) if not np.isnan(s_["y"][i])]
+            if len(idx) < 3:
+                return          # removing the last particle(s) of a tree simulation is C14's subject
+            i = idx[k % len(idx)]
+            clibrebound.reb_simulation_remove_particle.restype = ctypes.c_int
+            ret = clibrebound.reb_simulation_remove_particle(ctypes.byref(sim), ctypes.c_int(i), ctypes.c_int(0))
+            if ret != 1:
+                problems.append("unsorted removal of an existing particle from a callback returned %d" % ret)
+            removed_cb.add(int(s_["hash"][i]))
+        except Exception as e:
+            problems.append("HARNESS:" + repr(e))
+
+    def poststep(sp):
+        if pending and pending[0][1] == "post":
+            remove_now()
     sim.additional_forces = midstep
+    sim.post_timestep_modifications = poststep
     # the tree as the collision search uses it: walked from inside the resolver on the first collision of a step (before
     # anything has been merged), and right after every step in which nothing was merged (the search has just rebuilt
     # the tree and nothing has moved since)
@@ -457,6 +489,16 @@ def run_history(case, ctx):
                     except T.Problem as e:
                         problems.append("COLL:" + str(e))
                 coll["calls"] += 1
+                N = sim.N
+                if not (0 <= c.p1 < N and 0 <= c.p2 < N) or c.p1 == c.p2:
+                    problems.append("COLL:collision handed to the resolver with indices p1=%d p2=%d outside 0..N-1 (N=%d)"
+                                    % (c.p1, c.p2, N))
+                    return 0
+                pa, pb = sim.particles[c.p1], sim.particles[c.p2]
+                if pa.y != pa.y or pb.y != pb.y or pa.hash.value in removed_cb or pb.hash.value in removed_cb:
+                    problems.append("COLL:collision handed to the resolver for a particle that has been removed "
+                                    "(hashes %d, %d)" % (pa.hash.value, pb.hash.value))
+                    return 0
                 ret = mergefn(sp, c)
                 if ret:
                     coll["merged"] += 1
@@ -499,6 +541,7 @@ def run_history(case, ctx):
             for _ in range(op[1]):
                 s0 = alive()
                 coll["calls"] = coll["merged"] = 0
+                removed_cb.clear()
                 try:
                     sim.step()
                 except RuntimeError as e:
@@ -524,6 +567,16 @@ def run_history(case, ctx):
                                         "was merged, nothing moved since): %s" % (cfg["collision"], e), step=steps_done)
                 steps_done += 1
                 s1 = alive()
+                if removed_cb:
+                    # removed by the user from inside a callback during this step: must be gone, everything else as usual
+                    still = removed_cb & {int(h) for h in s1["hash"]}
+                    if still:
+                        raise Violation("particle removed from inside a callback is still there after the step: hashes %s"
+                                        % sorted(still))
+                    s0 = s0[[int(h) not in removed_cb for h in s0["hash"]]]
+                    ctx.cls("removed_in_callback")
+                    if event_at is None:
+                        event_at = steps_done
                 c, ev = check_step(s0, s1, sim.t, cfg, tree_cfg, R, ctx, None)
                 crossed = crossed or c
                 if ev and event_at is None:
@@ -564,6 +617,9 @@ def run_history(case, ctx):
             ctx.cls("user_removed")
             if event_at is None:
                 event_at = steps_done
+        elif kind == "remove_cb":
+            del pending[:]
+            pending.append([op[1], op[2]])
         elif kind == "walk":
             explicit_walk("walk op")
     if walks[0]:
